@@ -16,7 +16,11 @@ import (
 )
 
 // C15 — the in-memory identity manager stays consistent.
-type C15 struct{}
+type C15 struct {
+	// AsC07: run the concurrent MemIdm programs for C07 (every call returns): a deadlock, hang or panic
+	// verdict is then the violation, and the results are not judged.
+	AsC07 bool
+}
 
 func (C15) ID() string { return "C15" }
 
@@ -410,7 +414,7 @@ type c15Trace struct {
 }
 
 func (p C15) Run(c *sim.Ctx, t *sim.Tape) sim.RunResult {
-	concurrent := t.Chance(600)
+	concurrent := t.Chance(600) || p.AsC07
 	// known finding (IsAdmin for members of the administrator group): 90% of the runs stay clear of it.
 	_, kn := c.Known["C15|memidm IsAdmin=true for a non-administrator user whose primary group is the administrator group"]
 	filtered := kn && !t.Chance(100)
@@ -496,6 +500,30 @@ func (p C15) Run(c *sim.Ctx, t *sim.Tape) sim.RunResult {
 	case sim.VDeadlock, sim.VHang, sim.VPanic:
 		// C07's verdicts; for C15 the run is inconclusive.
 		c.Count("inconclusive_"+verdict.String(), 1)
+
+		if p.AsC07 {
+			var kinds []string
+
+			for _, pr := range progs {
+				var k []string
+				for _, o := range pr {
+					k = append(k, o.K)
+				}
+
+				kinds = append(kinds, strings.Join(k, ","))
+			}
+
+			res.Violation = &sim.Violation{
+				Prop: "C07", Class: verdict.String(), Sig: "memidm " + verdict.String() + " " + strings.Join(sortedCopy(kinds), " || "),
+				Msg: "concurrent MemIdm calls: " + verdict.String() + " " + msg,
+			}
+		}
+
+		return res
+	}
+
+	if p.AsC07 {
+		c.Count("memidm_concurrent_runs", 1)
 
 		return res
 	}
